@@ -87,6 +87,14 @@ type Model struct {
 	Live       *Image
 	Snaps      map[string]*Snap // by disk name; live-chain snapshots only
 	Orphans    map[string]bool  // disk names left behind by reverts (files still on disk)
+	// OrphanSnaps: orphans whose image is still known: nothing has been merged into
+	// any snapshot since they left the live chain (a merge changes a snapshot the
+	// orphan may be built on). The product accepts a revert to them.
+	OrphanSnaps map[string]*Snap
+	// Short: snapshots that came back into the live chain (revert to an orphan)
+	// with the size the volume had when they left it - files outside the live
+	// chain are not grown with the volume
+	Short map[string]bool
 	Chain      []string         // live path: head first, base last (disk names)
 	HeadNo     int
 	Counter    int64
@@ -104,7 +112,7 @@ func snapDisk(name string) string { return "volume-snap-" + name + ".img" }
 
 func NewModel(size int64, maxChain int) *Model {
 	return &Model{
-		Size: size, Live: NewImage(size), Snaps: map[string]*Snap{}, Orphans: map[string]bool{},
+		Size: size, Live: NewImage(size), Snaps: map[string]*Snap{}, Orphans: map[string]bool{}, OrphanSnaps: map[string]*Snap{}, Short: map[string]bool{},
 		Chain: []string{headName(0)}, HeadNo: 0, Counter: 1, Mode: "INIT", MaxChain: maxChain,
 	}
 }
@@ -174,6 +182,9 @@ func (m *Model) Revert(disk string) {
 	m.Live = s.Img.Clone()
 	for _, d := range m.Chain[1:idx] {
 		m.Orphans[d] = true
+		if m.OrphanSnaps != nil {
+			m.OrphanSnaps[d] = m.Snaps[d]
+		}
 		delete(m.Snaps, d)
 	}
 	m.HeadNo++
@@ -182,8 +193,64 @@ func (m *Model) Revert(disk string) {
 	m.Chain = nc
 }
 
+// OrphanAncestry returns the chain (newest first, without a head) that a revert
+// to the orphan builds: the orphan, its orphaned ancestors and the tail of the
+// live chain they were branched from.
+func (m *Model) OrphanAncestry(disk string) ([]string, bool) {
+	var a []string
+	for d := disk; d != ""; {
+		if s, ok := m.OrphanSnaps[d]; ok {
+			a = append(a, d)
+			d = s.Parent
+			continue
+		}
+		idx := m.InChain(d)
+		if idx < 1 {
+			return nil, false
+		}
+		return append(a, m.Chain[idx:]...), true
+	}
+	return nil, false
+}
+
+// RevertOrphan makes the live image equal to the image of a snapshot that an
+// earlier revert cut out of the live chain; the snapshots of the present chain
+// that it is not built on become orphans in turn.
+func (m *Model) RevertOrphan(disk string) {
+	anc, _ := m.OrphanAncestry(disk)
+	keep := map[string]bool{}
+	for _, d := range anc {
+		keep[d] = true
+	}
+	for _, d := range m.Chain[1:] {
+		if !keep[d] {
+			m.Orphans[d] = true
+			m.OrphanSnaps[d] = m.Snaps[d]
+			delete(m.Snaps, d)
+		}
+	}
+	for _, d := range anc {
+		if s, ok := m.OrphanSnaps[d]; ok {
+			// files outside the live chain are not grown with the volume: what
+			// lies beyond their end reads as zeros
+			if int64(len(s.Img.B)) < m.Size {
+				s.Img = s.Img.Clone()
+				s.Img.Grow(m.Size)
+				m.Short[d] = true
+			}
+			m.Snaps[d] = s
+			delete(m.OrphanSnaps, d)
+			delete(m.Orphans, d)
+		}
+	}
+	m.Live = m.Snaps[disk].Img.Clone()
+	m.HeadNo++
+	m.Chain = append([]string{headName(m.HeadNo)}, anc...)
+}
+
 // Remove merges snapshot disk into its parent and unlinks it.
 func (m *Model) Remove(disk string) {
+	m.OrphanSnaps = map[string]*Snap{} // (their files stay; what they are built on may have changed)
 	idx := m.InChain(disk)
 	s := m.Snaps[disk]
 	p := m.Snaps[s.Parent]
@@ -198,6 +265,9 @@ func (m *Model) Remove(disk string) {
 }
 
 func (m *Model) Resize(newSize int64) {
+	if newSize > m.Size {
+		m.Short = map[string]bool{} // every file of the live chain is brought to the new size
+	}
 	m.Size = newSize
 	m.Live.Grow(newSize)
 	for _, s := range m.Snaps {
@@ -261,6 +331,16 @@ func (m *Model) Clone() *Model {
 	c.Orphans = map[string]bool{}
 	for k, v := range m.Orphans {
 		c.Orphans[k] = v
+	}
+	c.Short = map[string]bool{}
+	for k, v := range m.Short {
+		c.Short[k] = v
+	}
+	c.OrphanSnaps = map[string]*Snap{}
+	for k, v := range m.OrphanSnaps {
+		sv := *v
+		sv.Img = v.Img.Clone()
+		c.OrphanSnaps[k] = &sv
 	}
 	c.Chain = append([]string{}, m.Chain...)
 	return &c
